@@ -253,7 +253,13 @@ func (s *sysCases) get(k int) *diffCase {
 
 // randomCase draws a random (path, document) pair; documents are path-directed
 // two times out of three.
+// RichKeys: names beyond [a-c] - non-ASCII, astral, spaces, quotes, backslash, dot, digits.
+var RichKeys = []string{"a", "b", "é", "名前", "a b", "x'y", "x\"y", "\\", "a.b", "😀", "-", "0"}
+
 func randomCase(r *rand.Rand, g *gen.Gen, spelled bool) *diffCase {
+	if len(g.Keys) == 3 && r.Intn(4) == 0 {
+		g.Keys = RichKeys
+	}
 	d := &diffCase{P: g.Path(5, 2)}
 	var doc interface{}
 	if r.Intn(3) == 0 {
